@@ -21,6 +21,38 @@ fn h64(x: f64) -> String {
 }
 
 fn pipe_case(run: &mut Run, id: &str, map: &Beatmap, settings: &Settings, passed: Option<u32>, rng: &mut Rng, repro: &str) {
+    pipe_case_impl(run, id, map, settings, passed, rng, repro, None);
+}
+
+/// `PIPE catchb`: the same comparison starting from the BYTES of a native catch file
+/// (`Model/PipelineBytes.lean`): bytes + settings + per-slider curve data + banana counts.
+fn pipe_bytes_case(run: &mut Run, id: &str, bytes: &[u8], settings: &Settings, passed: Option<u32>, rng: &mut Rng) {
+    let hexb: String = if bytes.is_empty() { "-".to_owned() } else { bytes.iter().map(|b| format!("{b:02x}")).collect() };
+    let repro = format!("settings={} passed_objects={passed:?} bytes=<<{}>>", settings.describe(), String::from_utf8_lossy(bytes));
+    let b2 = bytes.to_vec();
+    let map = match guarded(move || Beatmap::from_bytes(&b2)) {
+        Ok(Ok(m)) => m,
+        Ok(Err(_)) => {
+            run.count("pipeb:stage:io-error");
+            run.line(id, format!("PIPE catchb {hexb} 0 0 0 0 0 - - - -"), "IOERR".to_owned());
+            return;
+        }
+        Err(e) => {
+            run.fail("oracle:pipe-decode-panic", "", id, e, repro);
+            return;
+        }
+    };
+    if map.mode != rosu_pp::model::mode::GameMode::Catch {
+        run.count("pipeb:stage:other-mode");
+        run.line(id, format!("PIPE catchb {hexb} 0 0 0 0 0 - - - -"), format!("OTHERMODE {}", map.mode as u8));
+        return;
+    }
+    run.count("pipeb:stage:decoded");
+    pipe_case_impl(run, id, &map, settings, passed, rng, &repro, Some(&hexb));
+}
+
+#[allow(clippy::too_many_arguments)]
+fn pipe_case_impl(run: &mut Run, id: &str, map: &Beatmap, settings: &Settings, passed: Option<u32>, rng: &mut Rng, repro: &str, bytes_hex: Option<&str>) {
     let mut d = settings.build(2);
     if let Some(k) = passed {
         d = d.passed_objects(k);
@@ -58,6 +90,10 @@ fn pipe_case(run: &mut Run, id: &str, map: &Beatmap, settings: &Settings, passed
             }
         }
         gidx.push(n_palp);
+        if bytes_hex.is_some() {
+            gidx.push(n_palp + 1);
+            gidx.push(n_palp + 4);
+        }
         gidx.sort_unstable();
         gidx.dedup();
         for i in &gidx {
@@ -71,12 +107,18 @@ fn pipe_case(run: &mut Run, id: &str, map: &Beatmap, settings: &Settings, passed
         }
     }
     let mut objs: Vec<String> = Vec::with_capacity(inputs.steps.len());
+    let mut curves: Vec<String> = Vec::new();
+    let mut bananas: Vec<String> = Vec::new();
     for (s, sl) in inputs.steps.iter().zip(inputs.sliders.iter()) {
         match (s.kind, sl) {
             (0, _) => objs.push(format!("f:{}:{}", h32(s.x), h64(s.start_time))),
-            (2, _) => objs.push(format!("b:{}", s.n_bananas)),
+            (2, _) => {
+                bananas.push(s.n_bananas.to_string());
+                objs.push(format!("b:{}", s.n_bananas));
+            }
             (1, Some(i)) => {
                 let xs: Vec<String> = s.nested.iter().filter(|n| n.0 != 2).map(|n| h32(n.1)).collect();
+                curves.push(format!("{}:{}", i.dist.to_bits(), if xs.is_empty() { "-".to_owned() } else { xs.join(",") }));
                 objs.push(format!(
                     "s:{}:{}:{}:{}:{}:{}:{}:{}:{}",
                     h32(s.x),
@@ -103,6 +145,36 @@ fn pipe_case(run: &mut Run, id: &str, map: &Beatmap, settings: &Settings, passed
     run.count(&format!("pipe:take:{}", if inputs.take == usize::MAX { "unset" } else if inputs.take == 0 { "0" } else if inputs.take >= n_palp { ">=n" } else { "<n" }));
     run.count(&format!("pipe:palpables:{}", match n_palp { 0 => "0", 1..=5 => "1-5", 6..=30 => "6-30", _ => ">30" }));
     run.count(&format!("pipe:stars:{}", if attrs.stars == 0.0 { "0" } else { ">0" }));
+    if let Some(hexb) = bytes_hex {
+        run.count("pipeb:lines");
+        run.repro.insert(id.to_owned(), repro.to_owned());
+        run.line(
+            id,
+            format!(
+                "PIPE catchb {hexb} {} {} {} {} {} {} {} {} {}",
+                u8::from(inputs.hr_offsets),
+                u8::from(inputs.reflect_horizontally),
+                h32(inputs.cs),
+                h64(inputs.ar),
+                h64(inputs.clock_rate),
+                if inputs.take == usize::MAX { "-".to_owned() } else { inputs.take.to_string() },
+                if gidx.is_empty() { "-".to_owned() } else { gidx.iter().map(|i| i.to_string()).collect::<Vec<_>>().join(",") },
+                if bananas.is_empty() { "-".to_owned() } else { bananas.join(",") },
+                if curves.is_empty() { "-".to_owned() } else { curves.join(";") }
+            ),
+            format!(
+                "{} {} {} {} {} {}{gvals}",
+                h64(attrs.stars),
+                h64(attrs.ar),
+                attrs.n_fruits,
+                attrs.n_droplets,
+                attrs.n_tiny_droplets,
+                u8::from(attrs.is_convert)
+            ),
+        );
+        run.eval((n_palp > 0).then_some(id));
+        return;
+    }
     run.count("pipe:lines");
     run.repro.insert(id.to_owned(), repro.to_owned());
     run.line(
@@ -200,6 +272,10 @@ pub fn run(run: &mut Run, tier: &str, seed: u64, only: Option<&str>) {
         };
         let repro = format!("{text}\n# settings: {} passed_objects: {passed:?}", settings.describe());
         pipe_case(run, &id, &map, &settings, passed, &mut rng, &repro);
+        if spec.mode == 2 {
+            let bytes = crate::mapgen::file_variant(&mut rng, &text);
+            pipe_bytes_case(run, &format!("{id}#bytes"), &bytes, &settings, passed, &mut rng);
+        }
     }
     for (i, (mode, text)) in resource_maps().into_iter().enumerate() {
         if mode != 0 && mode != 2 {
